@@ -25,7 +25,7 @@ ASSUMPTIONS = [
     "sim(residual(y)) is compared with y at the non-missing positions of y",
 ]
 OBLIGATIONS = {"order=1": 20, "order=10": 10, "nan-innov": 30, "nan-first-steps": 20,
-               "nan-inputs": 30, "len=0": 5, "len=1": 5, "default-mean": 30, "default-mean:no-valid-input": 10, "options-by-position": 30, "series-constant-at-the-mean": 30,
+               "nan-inputs": 30, "len=0": 5, "len=1": 5, "default-mean": 30, "default-mean:no-valid-input": 10, "options-by-position": 30, "nan-inputs:one-long-run": 5, "series-constant-at-the-mean": 30,
                "explicit-ini": 30, "explicit-ini=0": 10, "reject:order": 20, "reject:nan-param": 20,
                "negative-coef": 30, "size-edge": 10}
 EPS = 2.0 ** -52
@@ -316,6 +316,12 @@ def run_case(ctx, case):
         mask = rs.random(n) < 0.1
         if case.get("tags") and "nan-first-steps" in case["tags"]:
             mask[:p] = True
+        if case.get("nan_run"):
+            # one long run of missing inputs (a sensor outage) instead of scattered ones
+            a_, l_ = case["nan_run"]
+            mask[:] = False
+            mask[a_:a_ + l_] = True
+            ctx.tag("nan-inputs:one-long-run")
         yin[mask] = np.nan
         if mask.any():
             ctx.tag("nan-inputs")
@@ -334,8 +340,9 @@ def run_case(ctx, case):
         inir = ini_eff
     # default mean with nothing to take a mean from (no step at all, or every step
     # missing): the answer is still the zero residual of each missing input
-    for ynone in ([yin] if n == 0 else [np.full(n, np.nan)] if n <= 6 or n % 7 == 0
-                  else []):
+    for ynone in ([yin, np.zeros(0, dtype=np.int64), np.zeros(0, dtype=np.uint8),
+                   np.zeros(0, dtype=np.float32)] if n == 0
+                  else [np.full(n, np.nan)] if n <= 6 or n % 7 == 0 else []):
         ctx.api("armodel_residual")
         ctx.tag("default-mean:no-valid-input")
         try:
@@ -448,6 +455,18 @@ def run(ctx):
         run_case(ctx, case)
         if it % 40 == 0 and len(case["e"]) <= 8:
             ctx.sample(case)
+        if it % 25 == 3:
+            # slowly decaying (or not decaying) models across an outage of 1000 to 3000
+            # steps
+            ph_ = [[1.0], [0.6, 0.4], [0.995], [0.5, 0.3, 0.2], [1.2, -0.2], [0.9999]][
+                (it // 25) % 6]
+            l_ = [1001, 1500, 3000, 1000, 1024, 2049][(it // 25 + ctx.shard) % 6]
+            n_ = l_ + int(rng.integers(40, 400))
+            a_ = int(rng.integers(5, n_ - l_ - 5))
+            mu_ = float(rng.normal() * 3)
+            run_case(ctx, {"kind": "ar", "phi": ph_, "e": rng.normal(size=n_) * 0.1,
+                           "mean": mu_, "ini": mu_ + float(rng.normal()) + 2.0,
+                           "explicit": True, "nan_run": [a_, l_], "default_mean": False})
         e = rng.normal(size=int(rng.integers(0, 20)))
         if it % 2 == 0:
             run_reject(ctx, {"kind": "reject", "what": "order",
